@@ -13,6 +13,11 @@ for d in sorted(glob.glob(os.path.join(ROOT, 'seeded', 'C*'))):
         obl.append(o.replace(' (replayed natively)', ' **(replayed)**').replace(' (no native reproduction)', ''))
     verdict = 'caught' if m.get('detected') else ('inconclusive (exit 2): ' + m.get('why_not', '')) if m.get('check_exit') == 2 else 'MISSED'
     rows.append(f"| {ident} | {m.get('property')} | {what} | {verdict} | {'<br>'.join(obl)} |")
-print('| id | property | change (needs …) | verdict of `vf check` | first failed obligations |')
-print('|---|---|---|---|---|')
-print('\n'.join(rows))
+table = '| id | property | change | verdict of `vf check` | first failed obligations |\n|---|---|---|---|---|\n' + '\n'.join(rows)
+import sys
+if '--write' in sys.argv:
+    p = os.path.join(ROOT, 'DESIGN.md'); d = open(p).read()
+    a = d.index('<!-- SEED-TABLE-BEGIN -->') + len('<!-- SEED-TABLE-BEGIN -->'); b = d.index('<!-- SEED-TABLE-END -->')
+    open(p, 'w').write(d[:a] + '\n' + table + '\n' + d[b:])
+else:
+    print(table)
